@@ -245,6 +245,26 @@ def mkOpts (H : Bytes → Bytes) (annex : Option Bytes) (ext : Option (Bytes × 
   | some a => withAnnex H a o
   | none => o
 
+/-- the exported functional options a caller can pass -/
+inductive TapOpt
+  | annex (a : Bytes)                                  -- WithAnnex
+  | base (codeSepPos : UInt32) (tapLeafHash : Bytes)   -- WithBaseTapscriptVersion
+  deriving DecidableEq, Repr
+
+def applyOpt (H : Bytes → Bytes) (o : TaprootSigHashOptions) : TapOpt → TaprootSigHashOptions
+  | .annex a => withAnnex H a o
+  | .base p l => withBaseTapscriptVersion p l o
+
+/-- `for _, sigHashOpt := range sigHashOpts { sigHashOpt(opts) }` -/
+def applyOpts (H : Bytes → Bytes) (l : List TapOpt) (o : TaprootSigHashOptions) :
+    TaprootSigHashOptions := l.foldl (applyOpt H) o
+
+def tapLeafTag : Bytes := [0x54, 0x61, 0x70, 0x4c, 0x65, 0x61, 0x66]
+
+/-- `TapLeaf.TapHash` -/
+def tapHash (H : Bytes → Bytes) (leafVersion : UInt8) (script : Bytes) : Bytes :=
+  H (H tapLeafTag ++ H tapLeafTag ++ ([leafVersion] ++ varBytes script))
+
 def isValidTaprootSigHash (hashType : UInt32) : Bool :=
   hashType == 0 || hashType == 1 || hashType == 2 || hashType == 3 ||
   hashType == 0x81 || hashType == 0x82 || hashType == 0x83
@@ -295,6 +315,19 @@ def calcTaprootSignatureHashRawNil (H : Bytes → Bytes) (hType : UInt32) (tx : 
   | some _ =>
     if (hType &&& 0x80) ≠ 0x80 ∨ ((hType &&& 3) ≠ 3 ∧ (hType &&& 3) ≠ 2) then .panic
     else calcTaprootSignatureHashRaw H SigHashes.zero hType tx idx fetch opts
+
+/-- exported `CalcTaprootSignatureHash`: no options -/
+def CalcTaprootSignatureHash (H : Bytes → Bytes) (sh : SigHashes) (hType : UInt32) (tx : Tx)
+    (idx : Nat) (fetch : OutPoint → TxOut) : Out :=
+  calcTaprootSignatureHashRaw H sh hType tx idx fetch (applyOpts H [] {})
+
+/-- exported `CalcTapscriptSignaturehash`: the default `WithBaseTapscriptVersion(blank, leafHash)`
+FIRST, then the caller's options in the order given (later options win) -/
+def CalcTapscriptSignaturehash (H : Bytes → Bytes) (sh : SigHashes) (hType : UInt32) (tx : Tx)
+    (idx : Nat) (fetch : OutPoint → TxOut) (leafVersion : UInt8) (script : Bytes)
+    (sigHashOpts : List TapOpt) : Out :=
+  calcTaprootSignatureHashRaw H sh hType tx idx fetch
+    (applyOpts H (.base 0xffffffff (tapHash H leafVersion script) :: sigHashOpts) {})
 
 /-! ### sigvalidate.go: which midstate the interpreter's verifiers use -/
 
